@@ -50,6 +50,8 @@ struct Base {
   virtual std::string upd(const std::string& item, const std::string& w, bool rvalue) = 0;
   virtual std::string merge(Base& o, bool rvalue) = 0;
   virtual std::unique_ptr<Base> ser(const std::string& mode) = 0;
+  virtual std::unique_ptr<Base> clone() = 0;                 // copy construction
+  virtual bool assign(Base& o, bool by_move) = 0;            // copy / move assignment into this live sketch (false: other type)
   virtual std::string q(const std::vector<std::string>& w) = 0;
   virtual std::string fi(const std::string& et, const std::string& spec) = 0;
 };
@@ -99,6 +101,13 @@ struct Box : Base {
       out += " " + WT<W>::fmt(sk.get_estimate(x)) + ":" + WT<W>::fmt(sk.get_lower_bound(x)) + ":" + WT<W>::fmt(sk.get_upper_bound(x));
     }
     return out;
+  }
+  std::unique_ptr<Base> clone() override { return std::unique_ptr<Base>(new Box(*this)); }
+  bool assign(Base& o, bool by_move) override {
+    auto* b = dynamic_cast<Box*>(&o);
+    if (!b) return false;
+    if (by_move) { SK tmp(b->sk); sk = std::move(tmp); } else sk = b->sk;
+    return true;
   }
   std::string fi(const std::string& et, const std::string& spec) override {
     frequent_items_error_type e;
@@ -161,6 +170,16 @@ static std::string step(const std::vector<std::string>& w) {
     std::string s = p->S();
     objs[atoi(w[2].c_str())] = std::move(p);
     return s;
+  }
+  if (op == "copy" && w.size() == 3) {      // copy <src> <dst>: assignment when dst is a live sketch of the same type (alternately copy / move), else copy construction
+    Base& s = *objs.at(atoi(w[1].c_str()));
+    const int d = atoi(w[2].c_str());
+    static unsigned n_assign = 0;
+    auto it = objs.find(d);
+    if (it != objs.end() && it->second.get() != &s && it->second->assign(s, (++n_assign % 2) == 0)) return it->second->S();
+    if (it != objs.end() && it->second.get() == &s) return s.S();
+    objs[d] = s.clone();
+    return objs[d]->S();
   }
   if (op == "q" && w.size() >= 2) return objs.at(atoi(w[1].c_str()))->q(w);
   if (op == "fi" && w.size() == 4) return objs.at(atoi(w[1].c_str()))->fi(w[2], w[3]);
